@@ -799,9 +799,13 @@ func mergeMaps(dst, src map[string]any) (map[string]any, bool) {
 		return dst, changed
 	}
 
-	if dst == nil {
-		dst = make(map[string]any)
+	// Never modify dst in place: the caller may still hold the original, e.g. the value cached
+	// in a live topic, which must stay as it is if saving the merged value fails.
+	merged := make(map[string]any, len(dst)+len(src))
+	for key, val := range dst {
+		merged[key] = val
 	}
+	dst = merged
 
 	for key, val := range src {
 		xval := reflect.ValueOf(val)
